@@ -97,7 +97,12 @@ def run_index_case(case, res, what, prop):
             w.run_until_caught_up()
         except world.SyncFailed as e:
             failures.append(('sync-failed', dict(error=repr(e.args[0]))))
+        except world.Stalled as e:
+            failures.append(('sync-stalled', dict(error=repr(e))))
         else:
+            if not w.at_daemon_tip():
+                failures.append(('parked-below-daemon-tip',
+                                 dict(height=w.db.state.height, daemon=len(blocks) - 1)))
             obs = observe.observe(w, ref_full, what=what)
             for field, detail in observe.compare(obs, ref_full, what):
                 failures.append((f'caught-up:{field}', _d(detail)))
